@@ -74,7 +74,12 @@ func (m *ltModel) probed(now time.Duration) {
 
 var c17Lat = []time.Duration{time.Millisecond, 5 * time.Millisecond, 50 * time.Millisecond}
 
-func c17LeastTime(n, ncalls int) func(x *X) {
+func c17LeastTime(n, ncalls int) func(x *X) { return c17LeastTimeM(n, ncalls, []int{0, 1, 2, 3}) }
+
+// c17LeastTimeM: moves is the alphabet of environment moves before a call (0 nothing, 1 pause 30ms, 2 pause 120ms,
+// 3 a latency change, 5 Client.Tick is changed (40 ms <-> 1 s), 4 the application pauses routing for 50 ms with Client.Fallback: the call waits inside the
+// Client first - time that is not the target's latency)
+func c17LeastTimeM(n, ncalls int, moves []int) func(x *X) {
 	return func(x *X) {
 		alphas := []float64{0.8, 0.5, 0}
 		ai := x.Choose(len(alphas))
@@ -95,7 +100,8 @@ func c17LeastTime(n, ncalls int) func(x *X) {
 		var trace []string
 		for i := 0; i < ncalls; i++ {
 			// environment move before the call: nothing / pause 30ms / pause 120ms / a latency change
-			switch x.Choose(4) {
+			move := moves[x.Choose(len(moves))]
+			switch move {
 			case 1:
 				vt.Advance(30 * time.Millisecond)
 				vs.Quiesce()
@@ -105,18 +111,42 @@ func c17LeastTime(n, ncalls int) func(x *X) {
 			case 3:
 				a := addrs[x.Choose(n)]
 				s.rt.lat[a] = c17Lat[(indexOf(c17Lat, s.rt.lat[a])+1)%len(c17Lat)]
+			case 4:
+				s.c.Fallback(50 * time.Millisecond)
+			case 5:
+				// the application changes Client.Tick at run time: "at most one probe per Tick" is about the Tick in force
+				nt := time.Second
+				if s.c.Tick == time.Second {
+					nt = 40 * time.Millisecond
+				}
+				s.c.Tick, model.tick = nt, nt
 			}
-			now := vt.Elapsed()
-			probe, mins := model.allowed(now)
 			from := len(s.rt.routed)
-			err := s.c.Call("X.Y", nil, nil)
+			var err error
+			if move == 4 {
+				done := false
+				vs.GoNamed(fmt.Sprintf("caller%d", i), func() { err = s.c.Call("X.Y", nil, nil); done = true })
+				vs.Quiesce()
+				for k := 0; k < 30 && !done; k++ {
+					vt.Advance(10 * time.Millisecond)
+					vs.Quiesce()
+				}
+				if !done {
+					x.Fail("C17/call-failed", "call %d did not return after a 50 ms Fallback", i)
+					break
+				}
+			} else {
+				err = s.c.Call("X.Y", nil, nil)
+			}
 			rs := s.rt.userRoutes(from)
 			if err != nil || len(rs) != 1 {
 				x.Fail("C17/call-failed", "call %d: err=%v routes=%d", i, err, len(rs))
 				break
 			}
 			got := rs[0].addr
-			dur := vt.Elapsed() - now
+			now := rs[0].at // when the call was routed (after any wait inside the Client)
+			probe, mins := model.allowed(now)
+			dur := s.rt.lat[got] // the round trip itself: what the latency estimate is an estimate of
 			switch {
 			case probe != "" && got == probe:
 				model.probed(now)
@@ -317,6 +347,9 @@ func init() {
 	register(&Scenario{Prop: "C17", Name: "c17/roundrobin-random-2", Quick: []Bound{{0, 0}, {1, 0}}, Thorough: []Bound{{2, 0}}, Body: c17RoundRobinRandom(2), MaxSteps: 100000})
 	register(&Scenario{Prop: "C17", Name: "c17/roundrobin-random-3", Quick: []Bound{{0, 0}}, Thorough: []Bound{{1, 0}}, Body: c17RoundRobinRandom(3), MaxSteps: 100000})
 	register(&Scenario{Prop: "C17", Name: "c17/leasttime-2x5", Quick: []Bound{{0, 0}}, Thorough: []Bound{{0, 0}}, Body: c17LeastTime(2, 5), MaxSteps: 100000})
+	register(&Scenario{Prop: "C17", Name: "c17/leasttime-with-fallback-2x5", Quick: []Bound{{0, 0}}, Thorough: []Bound{{0, 0}}, Body: c17LeastTimeM(2, 5, []int{0, 4, 3}), MaxSteps: 100000})
+	register(&Scenario{Prop: "C17", Name: "c17/leasttime-tick-changes-2x6", Quick: []Bound{{0, 0}}, Thorough: []Bound{{0, 0}}, Body: c17LeastTimeM(2, 6, []int{0, 5, 1, 2}), MaxSteps: 100000})
+	register(&Scenario{Prop: "C17", Name: "c17/leasttime-with-fallback-3x4", Quick: []Bound{{0, 0}}, Thorough: []Bound{{0, 0}}, Body: c17LeastTimeM(3, 4, []int{0, 4, 2}), MaxSteps: 100000})
 	register(&Scenario{Prop: "C17", Name: "c17/leasttime-3x5", Quick: []Bound{{0, 0}}, Thorough: []Bound{{0, 0}}, Body: c17LeastTime(3, 5), MaxSteps: 100000})
 	register(&Scenario{Prop: "C17", Name: "c17/leasttime-3x7", Quick: []Bound{}, Thorough: []Bound{{0, 0}}, Body: c17LeastTime(3, 7), MaxSteps: 100000, BudgetT: 400})
 	register(&Scenario{Prop: "C17", Name: "c17/leasttime-4targets", Quick: []Bound{{0, 0}}, Thorough: []Bound{{0, 0}}, Body: c17LeastTimeMany(4), MaxSteps: 100000})
